@@ -40,6 +40,7 @@ Definition build_call (c : cspec) : call + event :=
   match c with
   | SBad => inr exc_std
   | SSend sp => match build_one sp with inl m => inl (CSend m (ms_custom sp) (ms_noinc sp)) | inr e => inr e end
+  | SRef sp => match build_one sp with inl m => inl (CSendRef m (ms_custom sp) (ms_noinc sp)) | inr e => inr e end
   | SBatch l => match build_batch l with inl ms => inl (CBatch ms) | inr e => inr e end
   end.
 
@@ -82,7 +83,15 @@ Fixpoint sched_thread (fuel : nat) (own : list nat) (progs : list (list call)) :
   end.
 
 (* pm_pipeline: per wire message the owner's push (preceded by taking _con_spl for the first message of a
-   batch, followed by its release after the last one), then the writer's pop + send_process *)
+   batch, followed by its release after the last one), then the writer's pop + send_process.  A by-reference send
+   throws in this mode: it is one step of its thread and puts nothing on the wire; it is taken as soon as the thread's
+   next wire message (or the end of the wire) shows that the thread has got past it. *)
+Definition is_ref (c : call) : bool := match c with CSendRef _ _ _ => true | _ => false end.
+Fixpoint drop_refs (prog : list call) : list call :=
+  match prog with c :: r => if is_ref c then drop_refs r else prog | [] => [] end.
+Fixpoint ref_steps (t : nat) (prog : list call) : list actor :=
+  match prog with c :: r => if is_ref c then App t :: ref_steps t r else [] | [] => [] end.
+
 Fixpoint sched_pipe (own : list nat) (st : list (list call * nat)) : list actor :=
   match own with
   | [] => []
@@ -90,19 +99,54 @@ Fixpoint sched_pipe (own : list nat) (st : list (list call * nat)) : list actor 
     match nth_error st t with
     | Some (prog, S r) =>
       (App t :: Writer :: (match r with O => [App t] | _ => [] end) ++ sched_pipe own' (upd st t (prog, r)))%list
-    | Some (cl :: rest, O) =>
-      match cl with
-      | CBatch ((_ :: _ :: _) as l) => App t :: App t :: Writer :: sched_pipe own' (upd st t (rest, pred (length l)))
-      | _ => App t :: Writer :: sched_pipe own' (upd st t (rest, O))
+    | Some (prog0, O) =>
+      match drop_refs prog0 with
+      | cl :: rest =>
+        (ref_steps t prog0 ++
+         match cl with
+         | CBatch ((_ :: _ :: _) as l) => App t :: App t :: Writer :: sched_pipe own' (upd st t (rest, pred (length l)))
+         | _ => App t :: Writer :: sched_pipe own' (upd st t (rest, O))
+         end)%list
+      | [] => []
       end
-    | _ => []
+    | None => []
     end
   end.
 
+(* the threads as they stand when the wire has been replayed (same bookkeeping as sched_pipe) *)
+Fixpoint after_pipe (own : list nat) (st : list (list call * nat)) : list (list call * nat) :=
+  match own with
+  | [] => st
+  | t :: own' =>
+    match nth_error st t with
+    | Some (prog, S r) => after_pipe own' (upd st t (prog, r))
+    | Some (prog0, O) =>
+      match drop_refs prog0 with
+      | cl :: rest =>
+        match cl with
+        | CBatch ((_ :: _ :: _) as l) => after_pipe own' (upd st t (rest, pred (length l)))
+        | _ => after_pipe own' (upd st t (rest, O))
+        end
+      | [] => st
+      end
+    | None => st
+    end
+  end.
+(* by-reference sends after a thread's last wire message *)
+Fixpoint tail_refs (t : nat) (st : list (list call * nat)) : list actor :=
+  match st with
+  | [] => []
+  | (prog, _) :: st' => (ref_steps t prog ++ tail_refs (S t) st')%list
+  end.
+
+(* what a thread contributes to the wire in pm_pipeline *)
+Definition pipe_msgs (p : list call) : list msg := prog_msgs (filter (fun c => negb (is_ref c)) p).
+
 (* ---- the CONC operation ------------------------------------------------------------------------------------------ *)
-Definition render_rets (l : list N) : bytes :=
-  match l with [] => [45] | _ => join [44] (map dec l) end.
-Fixpoint tret_events (i : nat) (l : list (list N)) : list event :=
+Definition render_ret (r : option N) : bytes := match r with Some n => dec n | None => [88] end.      (* X = threw *)
+Definition render_rets (l : list (option N)) : bytes :=
+  match l with [] => [45] | _ => join [44] (map render_ret l) end.
+Fixpoint tret_events (i : nat) (l : list (list (option N))) : list event :=
   match l with
   | [] => []
   | r :: l' => ENote ([84;82;69;84;32] ++ dec (N.of_nat i) ++ [32] ++ render_rets r)%list :: tret_events (S i) l'
@@ -115,13 +159,15 @@ Definition run_conc (pipe : bool) (w : world) (progs : list (list cspec)) (impl_
     match build_progs progs with
     | inr e => (w, [e])
     | inl calls =>
-      let own := owners (map wire_item impl_wire) (map (fun p => map msg_item (prog_msgs p)) calls) in
       if pipe then
-        let c := prun sc (w_now w) (sched_pipe own (map (fun p => (p, O)) calls)) (pinit s calls) in
+        let own := owners (map wire_item impl_wire) (map (fun p => map msg_item (pipe_msgs p)) calls) in
+        let st0 := map (fun p => (p, O)) calls in
+        let c := prun sc (w_now w) (sched_pipe own st0 ++ tail_refs O (after_pipe own st0)) (pinit s calls) in
         (with_sess w (p_sess c), (p_wire c ++ tret_events O (map pt_rets (p_threads c)))%list)
       else
+        let own := owners (map wire_item impl_wire) (map (fun p => map msg_item (prog_msgs p)) calls) in
         let c := trun sc (w_now w) (sched_thread (length own) own calls) (tinit s calls) in
-        (with_sess w (t_sess c), (t_wire c ++ tret_events O (map tt_rets (t_threads c)))%list)
+        (with_sess w (t_sess c), (t_wire c ++ tret_events O (map (fun th => map Some (tt_rets th)) (t_threads c)))%list)
     end
   end.
 
